@@ -437,7 +437,8 @@ def _hist_strategy():
         "copy_env": st.booleans()})
     base = lifecycle_cases(
         requests=('incr', 'decr', 'set', 'restart', 'reload', 'stop',
-                  'start'), extra_watcher_opts=extra, max_ops=24)
+                  'start'), extra_watcher_opts=extra, max_ops=24,
+        kill_cmd=True, signal_cmd=True, respawn_false=True)
 
     @st.composite
     def case(draw):
